@@ -153,3 +153,40 @@ Proof.
   split; [exact (set_bad_bad info)|]. split; [exact (set_bad_time info)|].
   split; [exact (set_bad_rehash info)|exact (set_bad_justsynced info)].
 Qed.
+
+(* the option parser: in range it is the identity; out of range it should refuse, but does not always *)
+Lemma parse_plan_in_range v : (v <= 100)%N -> parse_plan_number v = Some (ArgPct v).
+Proof.
+  intro H. unfold parse_plan_number, int_of_ulong.
+  destruct (N.ltb_spec v 18446744073709551616); [|lia].
+  rewrite N.mod_small by lia. destruct (N.ltb_spec v 2147483648); [|lia].
+  destruct (Z.gtb_spec (Z.of_N v) 100); [lia|]. destruct (Z.leb_spec 0 (Z.of_N v)); [|lia].
+  rewrite N2Z.id. reflexivity.
+Qed.
+
+Lemma parse_older_in_range v : (v <= 1000)%N -> parse_older_number v = Some (Some v).
+Proof.
+  intro H. unfold parse_older_number, int_of_ulong.
+  destruct (N.ltb_spec v 18446744073709551616); [|lia].
+  rewrite N.mod_small by lia. destruct (N.ltb_spec v 2147483648); [|lia].
+  destruct (Z.gtb_spec (Z.of_N v) 1000); [lia|]. destruct (Z.leb_spec 0 (Z.of_N v)); [|lia].
+  rewrite N2Z.id. reflexivity.
+Qed.
+
+Lemma parse_plan_partial v : (v < 2147483648)%N -> (parse_plan_number v = None <-> (100 < v)%N).
+Proof.
+  intro H. unfold parse_plan_number, int_of_ulong.
+  destruct (N.ltb_spec v 18446744073709551616); [|lia].
+  rewrite N.mod_small by lia. destruct (N.ltb_spec v 2147483648); [|lia].
+  destruct (Z.gtb_spec (Z.of_N v) 100); [split; [lia|reflexivity]|].
+  destruct (Z.leb_spec 0 (Z.of_N v)); [|lia]. split; [discriminate|lia].
+Qed.
+
+(* "every number above 100 is refused" is false: 2^32 - 4 is read as SCRUB_FULL, 2^32 - 1 as the default plan *)
+Lemma parse_plan_range_refuted :
+  exists v, (100 < v)%N /\ parse_plan_number v = Some ArgFull.
+Proof. exists 4294967292%N. split; [reflexivity|vm_compute; reflexivity]. Qed.
+
+Lemma parse_older_range_refuted :
+  exists v, (1000 < v)%N /\ parse_older_number v = Some None.
+Proof. exists 4294967295%N. split; [reflexivity|vm_compute; reflexivity]. Qed.
